@@ -417,9 +417,26 @@ func e2eHistoryPairs(c *e2eCtx) error {
 				cfg.AppVersion = "2406001"
 				cfg.AppName = "0123abc"
 			}
-			run := func(dir string, packed bool) (proj.Run, map[string]string) {
+			run := func(dir string, packed bool, prior bool) (proj.Run, map[string]string) {
 				proj.Git(dir, 0, "reset", "-q", "--hard")
 				proj.Git(dir, 0, "clean", "-fdxq")
+				if prior {
+					// the repository has been used before: a track + clean round at precision 1 on the same
+					// two revisions; nothing of it may leak into the measured run (work tree restored by git,
+					// whatever the commands keep outside the work tree stays)
+					pc := cfg
+					pc.Precision = 1
+					if pc.Old == "INIT" {
+						pc.Old = "vold"
+					}
+					proj.WriteConfig(dir, pc)
+					if proj.RunGoat(c.goat, dir, nil, "track").Exit == 0 {
+						proj.RunGoat(c.goat, dir, nil, "clean")
+						c.count("A:used-before-at-precision-1")
+					}
+					proj.Git(dir, 0, "reset", "-q", "--hard")
+					proj.Git(dir, 0, "clean", "-fdxq")
+				}
 				cc := cfg
 				cc.Threads = 1
 				if (i+mi)%2 == 0 { // loose and packed stores alike (object reads are serialised since fix 11c0d4a)
@@ -431,8 +448,8 @@ func e2eHistoryPairs(c *e2eCtx) error {
 				delete(t, "goat.yaml") // differs in `threads` only
 				return res, t
 			}
-			ra, ta := run(dirA, planA.packed)
-			rb, tb := run(dirB, planB.packed)
+			ra, ta := run(dirA, planA.packed, i%3 == 1)
+			rb, tb := run(dirB, planB.packed, false)
 			c.mu.Lock()
 			c.res.Evaluations++
 			c.mu.Unlock()
